@@ -86,8 +86,14 @@ class ControlServer(ABC, Generic[ClientT]):
         enters the session's `listen` loop.
         """
         session = ControlSession(self, reader, writer)
-        await session.client_handshake()
-        await session.listen()
+        try:
+            await session.client_handshake()
+            await session.listen()
+        finally:
+            # Without this the connection stays open on the server side
+            # after the session is over, which keeps the server from
+            # ever finishing to close (`Server.wait_closed`).
+            writer.close()
 
     @abstractmethod
     async def _get_server_instance(
